@@ -51,6 +51,16 @@ META = {
         note="Trusted: Lean kernel; engine model tied by the import suite. Four genuine defects found by this suite were repaired in /repo (see known_findings.jsonl).",
         technique="Lean 4 theorems (image-level replace law, refusal frame lemmas) + differential import/export suite on the real DB",
     ),
+    "C01": dict(
+        text="Lean 4 proofs over an abstract replication protocol model with unboundedly many nodes and steps (commits on any node, delivery of any log file or snapshot between any nodes in any order, retention, restarts): by induction over the step list every node sits on the committed history, so a node at (TXID, checksum) holds exactly the image committed there (collision-freedom of the checksum as an explicit hypothesis); healthy histories never fail post-apply verification; a stream session from any history position reaches the primary's position within txid-distance + 2 iterations. The stream decision function is shared with a byte-level cluster model over engine-model nodes that is compared with real 2-3 node clusters (real stores, HTTP/2 streams, scripted lease service) on pager-simulator histories with lag, retention cuts, disconnects, restarts and primary changes; Lean spec predicates judge the implementation's own observations.",
+        note="Trusted: Lean kernel; cluster model tied by correspondence; scripted lease service; no FUSE mount, so the kernel page cache / invalidation part of the statement is not exercised (partial); time bounds are protocol iterations, not wall-clock. One genuine defect (own-file skip) found and repaired in /repo (71ecab6).",
+        technique="Lean 4 invariant proof by induction over protocol steps + convergence proof by measure + differential check of a byte-level cluster model against real multi-node clusters",
+    ),
+    "C06": dict(
+        text="Lean 4 proofs that the primary's stream decision answers `snapshot` for every off-history relation (ahead, equal TXID with other checksum, gap, pre-checksum mismatch) and sends an incremental file only as the exact successor of the client's position; that in every reachable world of the unbounded protocol model an incremental file is only ever applied to a node holding the image the file was created from; and that a non-extending file is refused with the node unchanged (protocol level and byte-level engine model). The branch conditions of streamDB / streamLTX / processLTXStreamFrame are regenerated from the source and compared with the model's by a fact theorem. Real clusters with forks of every relation and a real replica offered wrong-TXID / wrong-checksum / stale / damaged-body files on both paths are compared with the models and judged by Lean spec predicates.",
+        note="Trusted: Lean kernel; fact extractor; cluster and engine models tied by correspondence. One genuine defect (stream path applied a file before verifying it) found and repaired in /repo (1480a4e).",
+        technique="Lean 4 decision-function theorems + reachable-world invariant + regenerated branch-condition facts + differential cluster and replica suites",
+    ),
     "C10": dict(
         text="Lean 4 proofs that (a) the small-step model of Export / WriteSnapshotTo performs exactly the guard calls and state captures of db.go in source order (fact regenerated from the source on every run), with the capture strictly inside the exclusive WAL-write-lock bracket and, for Export, no gap between that bracket and the read locks, (b) over the generated RWMutex code, for any lock table and any number of owners, a lock held shared by the snapshot cannot be taken exclusively by anyone else and the exclusively held write lock excludes every other owner, (c) a snapshot passing its checksum self-check is the image of its reported position under an explicit collision-freedom hypothesis; plus a schedule-exploring differential suite that suspends the real functions at every lock call and runs commits, checkpoints, WAL restarts, truncations and drops in the window, judged by the Lean spec (bytes = image of the reported position).",
         note="Trusted: Lean kernel; fact extractor; small-step model tied by the snapsched suite; suspension at lock-call granularity. One genuine defect (Export's lock window) was found by this suite and repaired in /repo (068dfa9).",
